@@ -131,6 +131,14 @@ def run_campaign(rep: Report, items, opts=None, module="pvmon.campaign", func="w
     return out
 
 
+def with_context(key, obs):
+    """violations met on a boundary-battery case carry the parameter that was moved to the edge, so that a finding which
+    only exists at that parameter value is recorded (and matched) as such and does not hide the same symptom elsewhere"""
+    if str(obs.get("cfg_class", "")).startswith("boundary:"):
+        return {**key, "context": obs["cfg_class"]}
+    return key
+
+
 def collect(rep: Report, prop, pairs, nontrivial=None):
     """copy this property's violations into the report; count distinct non-trivial cases"""
     counters = collections.Counter()
@@ -151,8 +159,7 @@ def collect(rep: Report, prop, pairs, nontrivial=None):
         if (nontrivial(obs) if nontrivial else obs["outcome"] == "ok" and obs["stats"].get("steps", 0) >= 1):
             rep.distinct.add(item_label(item))
         for v in obs.get("viol", {}).get(prop, []):
-            rep.violation({**v["key"], "class": obs["cfg_class"]} if False else v["key"], v["detail"],
-                          replay={"kind": "campaign", "item": item, "mode": obs["mode"]})
+            rep.violation(with_context(v["key"], obs), v["detail"], replay={"kind": "campaign", "item": item, "mode": obs["mode"]})
     # H-cov: executable lines of the repository reached by this run's workload
     reached = collections.defaultdict(set)
     for item, obs in pairs:
